@@ -23,17 +23,20 @@ type Config struct {
 	MemPages    []uint32 // candidate minimum sizes; nil = {0,1,1,1,1,2,3}
 	NoMemory    bool
 	AllowStart  bool
-	RefSigs     bool   // reference types may appear in function signatures
-	V128Sigs    bool   // v128 may appear in function signatures
-	Names       bool   // emit a name section
-	Customs     bool   // emit custom sections
-	SpecialHost bool   // import env.grow (i32)->i32 and env.callback (i32)->i32
-	HostModule  string // module name of the host imports ("" = "env")
-	Sink        bool   // fold values that statements would drop into an exported global (observability)
-	SegmentRich bool   // bias statements towards passive-segment and table instructions and runtime ref.func (C11)
-	CallRich    bool   // bias statements and expressions towards calls (C20)
-	Enter       bool   // weave a call to the host import enter(i32 funcIndex) into every function entry (ground truth for C20)
-	WASI        bool   // import a few wasi_snapshot_preview1 functions and use them
+	RefSigs     bool    // reference types may appear in function signatures
+	V128Sigs    bool    // v128 may appear in function signatures
+	Names       bool    // emit a name section
+	Customs     bool    // emit custom sections
+	SpecialHost bool    // import env.grow (i32)->i32 and env.callback (i32)->i32
+	HostModule  string  // module name of the host imports ("" = "env")
+	Sink        bool    // fold values that statements would drop into an exported global (observability)
+	Lib         *Module // if set, import some exported functions of this (earlier generated) module ...
+	LibName     string  // ... under this module name (wasm-to-wasm calls across instances)
+	ModuleName  string  // if set, the module name written to the name section
+	SegmentRich bool    // bias statements towards passive-segment and table instructions and runtime ref.func (C11)
+	CallRich    bool    // bias statements and expressions towards calls (C20)
+	Enter       bool    // weave a call to the host import enter(i32 funcIndex) into every function entry (ground truth for C20)
+	WASI        bool    // import a few wasi_snapshot_preview1 functions and use them
 }
 
 // DefaultConfig is a medium-size configuration with every feature.
@@ -202,6 +205,18 @@ func (g *gen) module() {
 			idx := m.ImportFunc(hostMod, n, s.P, s.R)
 			g.sigs = append(g.sigs, s)
 			g.out.Funcs = append(g.out.Funcs, FuncInfo{Index: idx, Sig: s, Imported: true, HostName: n})
+		}
+	}
+	if cfg.Lib != nil {
+		ex := cfg.Lib.Exports()
+		if len(ex) > 0 {
+			k := g.rng(1, 3, "nlibimports")
+			for i := 0; i < k; i++ {
+				e := ex[g.intn(len(ex), "libfn")]
+				idx := m.ImportFunc(cfg.LibName, e.Export, e.Sig.P, e.Sig.R)
+				g.sigs = append(g.sigs, e.Sig)
+				g.out.Funcs = append(g.out.Funcs, FuncInfo{Index: idx, Sig: e.Sig, Imported: true, HostName: "lib:" + e.Export})
+			}
 		}
 	}
 	if cfg.Enter {
@@ -407,8 +422,13 @@ func (g *gen) module() {
 			}
 		}
 	}
+	if cfg.ModuleName != "" {
+		m.ModuleName = cfg.ModuleName
+	}
 	if cfg.Names && g.chance(70, "names") {
-		m.ModuleName = "gen"
+		if m.ModuleName == "" {
+			m.ModuleName = "gen"
+		}
 		for i := range m.Funcs {
 			if g.chance(50, "fname") {
 				m.Funcs[i].Name = fmt.Sprintf("fn%d", i)
